@@ -1198,6 +1198,9 @@ class Exec:
             raise Unsupported(f"attribute store on {bt}")
         oid = self.ref_id(base)
         self.check_frame(oid, "fld:" + name, what)
+        fty = self.field_ty(bt.cls, name)
+        if fty is not None and fty.kind == "real" and v.ty.kind in ("int", "bool"):
+            v = sv_real(self.num(v))  # an int stored where a float is declared: same number
         self.wr("fld:" + name, oid, v.t)
 
     # subscripts ----------------------------------------------------------
